@@ -15,7 +15,7 @@ RULE = (
     "sample() call; distinct = its (kind,b,t,n,seed,n_chains,chain) tuple; non-trivial = t>1 or b>0 or n_chains>1"
 )
 ASSUMPTIONS = ["non-overlap of streams is decided on the first 4096 64-bit outputs of each stream (no shared value, no shared window)"]
-REQUIRED = {"schedules_checked": {"quick": 500, "thorough": 2000}, "stream_pairs_checked": {"quick": 200, "thorough": 2000}, "vi_checked": {"quick": 40, "thorough": 250}}
+REQUIRED = {"captures_at_log_level_DEBUG": {"quick": 30, "thorough": 150}, "schedules_checked": {"quick": 500, "thorough": 2000}, "stream_pairs_checked": {"quick": 200, "thorough": 2000}, "vi_checked": {"quick": 40, "thorough": 250}}
 GRID = {"quick": (12, 5, 8), "thorough": (24, 7, 12)}
 
 
@@ -182,9 +182,27 @@ def run_shard(rec, tier, seed, shard, nshards):
         check_schedule("SparseDrugCombo", log, tags, b, t, n, res, w)
 
     # ---------- (c) streams
-    def capture(sd, nch, ci):
+    import logging
+
+    def capture(sd, nch, ci, vary=False):
+        """the generator handed to the model; with vary=True everything that is NOT part of the triple differs:
+        schedule, size of the collection, progress bar and the verbosity of batchie's loggers"""
         m = CountingModel()
-        sampling.sample(m, ThetaHolder(n_thetas=1), seed=sd, n_chains=nch, chain_index=ci, n_burnin=0, thin=1)
+        if not vary:
+            sampling.sample(m, ThetaHolder(n_thetas=1), seed=sd, n_chains=nch, chain_index=ci, n_burnin=0, thin=1)
+            return m.rng
+        lg = logging.getLogger("batchie")
+        lg2 = logging.getLogger("batchie.sampling")
+        old = (lg.level, lg2.level)
+        level = [logging.DEBUG, logging.INFO, logging.ERROR][int(rng.integers(3))]
+        lg.setLevel(level)
+        lg2.setLevel(level)
+        rec.count("captures_at_log_level_%s" % logging.getLevelName(level))
+        try:
+            sampling.sample(m, ThetaHolder(n_thetas=int(rng.integers(1, 4))), seed=sd, n_chains=nch, chain_index=ci, n_burnin=int(rng.integers(0, 3)), thin=int(rng.integers(1, 3)), progress_bar=False)
+        finally:
+            lg.setLevel(old[0])
+            lg2.setLevel(old[1])
         return m.rng
 
     n_stream = 10 if tier == "quick" else 60
@@ -196,7 +214,7 @@ def run_shard(rec, tier, seed, shard, nshards):
         outs = [g.integers(0, 2**64, size=4096, dtype=np.uint64) for g in gens]
         for ci in range(nch):
             rec.case(("stream", sd, nch, ci), nontrivial=nch > 1)
-            again = capture(sd, nch, ci)
+            again = capture(sd, nch, ci, vary=True)
             rec.count("stream_pairs_checked")
             rec.check(repr(again.bit_generator.state) == states[ci], "C17/stream/not-a-function-of-triple", "two calls with (seed=%d,n_chains=%d,chain=%d) got different generator states" % (sd, nch, ci), {"seed": sd, "n_chains": nch, "chain_index": ci})
             rec.check(np.array_equal(again.integers(0, 2**64, size=4096, dtype=np.uint64), outs[ci]), "C17/stream/not-a-function-of-triple", "two calls with the same triple produced different draws", {"seed": sd, "n_chains": nch, "chain_index": ci})
